@@ -853,6 +853,7 @@ func (s *seqState) compareState(keys int) {
 
 // SeqOutcome is the result of one sequential run.
 type SeqOutcome struct {
+	Infra    string // set when the harness could not set the run up: infrastructure trouble, not a verdict
 	Viol     []Violation
 	Steps    int
 	Probes   map[string]int
@@ -981,7 +982,9 @@ func RunSeq(seed uint64, sc *SeqCase, gen *OpGen, nops int, stopAtFirst bool) *S
 	out.SimSteps = w.Steps
 	out.LogHash = w.LogHash
 	out.Fail = w.Fail
-	if w.Fail != nil {
+	if w.Fail != nil && w.Fail.Kind == simrt.FailSetup {
+		out.Infra = w.Fail.Detail
+	} else if w.Fail != nil {
 		props, detail := P("C01", "C08", "C14"), w.Fail.Detail
 		if inFlight != nil {
 			detail = fmt.Sprintf("during %s: %s", inFlight, detail)
